@@ -307,6 +307,9 @@ func RuleK17(r *Report, c *Codec) {
 			}
 			if inner != nil && inner != pa.Results[0] && inner.Typ != nil {
 				if _, isPtr := inner.Typ.Underlying().(*types.Pointer); isPtr && nilness(inner) == -1 && inner.Op != "param" {
+					if ptrOfSuccessfulConstructor(c.P, pa, inner) {
+						continue // (p, nil) from a constructor of the module that returns a non-nil pointer with every nil error
+					}
 					if v, ok := pa.State.Bools["isnil("+inner.String()+")"]; !ok || v {
 						bad = "returns " + cut(inner.String(), 60) + ", a pointer never shown to be non-nil, with a nil error when [" + cut(pa.State.Describe(), 120) + "]: a nil pointer inside the interface makes the codec's store into a value field panic"
 					}
@@ -315,6 +318,115 @@ func RuleK17(r *Report, c *Codec) {
 		}
 		if n > 0 {
 			r.Check(bad == "", "K17", kf.Name, c.P.Pos(kf.UnmarshalFn.Pos()), fmt.Sprintf("%d success paths", n), bad)
+		}
+	}
+}
+
+// ptrOfSuccessfulConstructor: t is the pointer result of a call f(...) of a module function returning (*T, error),
+// the path has established that the call's error is nil, and f returns a non-nil pointer on every one of its own
+// paths whose error may be nil (a summary obtained by walking f).
+var ctorSummary = map[*ssa.Function]int{}
+
+func ptrOfSuccessfulConstructor(p *Program, pa Path, t *Term) bool {
+	if t == nil || t.Op != "extract" || t.Name != "0" || len(t.Args) != 1 || t.Args[0].Op != "call" {
+		return false
+	}
+	call := t.Args[0]
+	if isnil, known := pa.State.Bools["isnil("+call.String()+"#1)"]; !known || !isnil {
+		if os.Getenv("UHLINT_DEBUG") == "K17" {
+			fmt.Fprintf(os.Stderr, "K17 ctor: error of %s not known nil (known=%v)\n", cut(call.String(), 80), known)
+			for k := range pa.State.Bools {
+				fmt.Fprintf(os.Stderr, "     key %s\n", cut(k, 200))
+			}
+		}
+		return false
+	}
+	var f *ssa.Function
+	for _, fn := range p.AllFuncs {
+		if fn.Parent() == nil && calleeName(fn) == call.Name {
+			if f != nil {
+				return false // ambiguous name
+			}
+			f = fn
+		}
+	}
+	if f == nil || f.Signature.Results().Len() != 2 {
+		return false
+	}
+	if os.Getenv("UHLINT_DEBUG") == "K17" {
+		fmt.Fprintf(os.Stderr, "K17 ctor %s found=%v\n", call.Name, f != nil)
+	}
+	switch ctorSummary[f] {
+	case 1:
+		return true
+	case 2:
+		return false
+	}
+	ctorSummary[f] = 2
+	w := NewWalker(p)
+	w.Inline = typesHelpers(p)
+	paths := w.Walk(f, symbolicArgs(f), nil)
+	if w.Exploded || len(paths) == 0 {
+		return false
+	}
+	for _, fp := range paths {
+		if os.Getenv("UHLINT_DEBUG") == "K17" {
+			fmt.Fprintf(os.Stderr, "K17 ctor path %s %s results=%d\n", fp.Outcome, fp.Detail, len(fp.Results))
+			for _, rv := range fp.Results {
+				fmt.Fprintf(os.Stderr, "    %s nilness=%d\n", cut(rv.String(), 100), nilness(rv))
+			}
+		}
+		if fp.Outcome == "panic" {
+			continue
+		}
+		if fp.Outcome != "return" || len(fp.Results) != 2 {
+			return false
+		}
+		if errNilness(fp, fp.Results[1]) == 0 {
+			continue // fails: the pointer is not used
+		}
+		if nilness(fp.Results[0]) != 0 {
+			return false
+		}
+	}
+	ctorSummary[f] = 1
+	return true
+}
+
+// K21: the field encoders are total. The codec leaves out a field whose encoder returns an error (the request is
+// still sent, with zeros in its place), so an encoder may fail only where the protocol has no encoding at all:
+// when the BCD packing of the digits it formatted fails. A failure decided by a comparison on the value, or by
+// another parse of its text, silently turns an argument into zeros on the wire.
+func RuleK21(r *Report, c *Codec) {
+	r.Rule("K21", "a field encoder (MarshalUT0311L0x) returns an error only when bcd.Encode failed or returned nothing: on no other ground is a value refused (the codec would send zeros in its place)", 5)
+	for _, kf := range c.Kinds {
+		if kf.MarshalFn == nil {
+			continue
+		}
+		bad := ""
+		n := 0
+		for _, pa := range kf.MPaths {
+			if pa.Outcome != "return" || len(pa.Results) != 2 {
+				continue
+			}
+			n++
+			if errNilness(pa, pa.Results[1]) == 1 {
+				continue
+			}
+			justified := false
+			for k, v := range pa.State.Bools {
+				if strings.HasPrefix(k, "isnil(bcd.Encode(") {
+					if (strings.HasSuffix(k, "#1)") && !v) || (strings.HasSuffix(k, "#0)") && v) {
+						justified = true
+					}
+				}
+			}
+			if !justified {
+				bad = "the encoder fails under [" + cut(pa.State.Describe(), 200) + "]: the codec then leaves the field out and the message goes out with zeros in its place"
+			}
+		}
+		if n > 0 {
+			r.Check(bad == "", "K21", kf.Name+":encoder", c.P.Pos(kf.MarshalFn.Pos()), fmt.Sprintf("%d paths", n), bad)
 		}
 	}
 }
@@ -1010,6 +1122,7 @@ func RuleG1(r *Report, p *Program) { RuleG1In(r, p, "") }
 
 // RuleG1In restricts the inventory to one package of the module ("" = all).
 func RuleG1In(r *Report, p *Program, only string) {
+	RuleG2(r, p, only)
 	keepPkg := func(path string) bool {
 		return only == "" || strings.HasSuffix(path, "/"+only)
 	}
